@@ -263,9 +263,9 @@ def ranking_rules(prog, an, rep):
               detail=' > '.join(worst_first))
 
 
-def outcome_table(prog, an, rep):
+def outcome_table(prog, an, rep, pid='C06'):
     f = gate_func(an)
-    R = 'C06.EXH.outcome'
+    R = pid + '.EXH.outcome'
     c = an.cfg(f)
     # the decision variable: compared against status literals in tests
     cand = {}
